@@ -11,6 +11,7 @@ from .pyexpr import Untranslatable, parse_file, find_def, lean_str
 from .c04 import _n
 
 DRIVERS = [("powerflow", "pandapower/powerflow.py", "_powerflow"),
+           ("recycled", "pandapower/powerflow.py", "_recycled_powerflow"),
            ("opf", "pandapower/optimal_powerflow.py", "_optimal_powerflow"),
            ("sc", "pandapower/shortcircuit/calc_sc.py", "_calc_sc"),
            ("sc_1ph", "pandapower/shortcircuit/calc_sc.py", "_calc_sc_1ph"),
